@@ -809,6 +809,9 @@ def arr_store(cur, k, v, g):
             cj.discard(c)
             g = and_(cj)
     init, stores = (cur[1], cur[2]) if cur[0] == 'arr' else (cur, ())
+    if stores and stores[-1][0] == k and stores[-1][2] == g and not any(x == k for x in walk(v) if isinstance(x, tuple)):
+        stores = stores[:-1]                 # x[k] = a; x[k] = b  (same place, same condition): the later store is the one that stays
+        cur = ('arr', init, stores) if stores else init
     merged = False
     while stores:
         k0, v0, g0 = stores[-1]
